@@ -1,6 +1,6 @@
 (* C20 property theorems ONLY (each closed by an already proved lemma) + assumptions. *)
 From Coq Require Import List Reals String ZArith NArith Bool Lra Lia.
-From RV Require Import Common.Num Common.RealNum Gen.Units C14.Murmur C20.Units C20.Rotation C20.RotProofs C20.Frames C20.FrameProofs.
+From RV Require Import Common.Num Common.RealNum Gen.Units C14.Murmur C20.Units C20.UnitsState C20.Rotation C20.RotProofs C20.Frames C20.FrameProofs C16.Dual C20.Var2Proofs.
 Import ListNotations.
 Open Scope string_scope.
 Open Scope R_scope.
@@ -90,6 +90,17 @@ Theorem C20_particle_conversion_complete : pc_eqb particle_conversion particle_c
 Proof. exact particle_conversion_ok. Qed.
 Print Assumptions C20_particle_conversion_complete.
 
+(* simulation.py (setter / getter / convert_particle_units transcribed through the regenerated field lists): for every supported triple
+   given in any order, sim.units = ... followed by sim.units returns exactly the three names under the right keys,
+   convert_particle_units will read them back as (old_l, old_t, old_m), and its 'units not set' guard passes *)
+Theorem C20_units_setter_getter_roundtrip : forall l t m us,
+  In l (names lengths_SI) -> In t (names times_SI) -> In m (names masses_SI) -> In us (perms3 l t m) ->
+  exists st, set_units us = Some st /\
+    key "length" (get_units st) = Some l /\ key "time" (get_units st) = Some t /\ key "mass" (get_units st) = Some m /\
+    convert_old_units st = [Some l; Some t; Some m] /\ guard_passes st = true.
+Proof. exact units_setter_getter_roundtrip. Qed.
+Print Assumptions C20_units_setter_getter_roundtrip.
+
 (* ================= rotations (over R) ================= *)
 Theorem C20_quaternion_group : forall a b c : quat R,
   q_mul RNum (q_mul RNum a b) c = q_mul RNum a (q_mul RNum b c) /\
@@ -159,6 +170,37 @@ Theorem C20_from_to_antiparallel : forall thr (a : vec3 R) k, 0 <= thr -> 0 < v_
 Proof. exact from_to_antiparallel. Qed.
 Print Assumptions C20_from_to_antiparallel.
 
+(* reb_rotation_init_orbit is the unit quaternion of Rz(Omega) Rx(inc) Rz(omega); (c,s) = cos/sin of the half angles *)
+Theorem C20_init_orbit : forall c_o s_o c_i s_i c_O s_O,
+  c_o * c_o + s_o * s_o = 1 -> c_i * c_i + s_i * s_i = 1 -> c_O * c_O + s_O * s_O = 1 ->
+  let q := init_orbit RNum c_o s_o c_i s_i c_O s_O in
+  q_lsq RNum q = 1 /\
+  forall v, rotate RNum v q = Rz (c_O * c_O - s_O * s_O) (2 * s_O * c_O) (Rx (c_i * c_i - s_i * s_i) (2 * s_i * c_i) (Rz (c_o * c_o - s_o * s_o) (2 * s_o * c_o) v)).
+Proof. exact init_orbit_spec. Qed.
+Print Assumptions C20_init_orbit.
+
+(* reb_rotation_init_to_new_axes: unit quaternion taking newz_hat to z and the part of newx orthogonal to newz to rho * x, rho > 0;
+   (c2,s2) are the half-angle values of -atan2(x'.y, x'.x) for the first-stage image x' of the orthogonalised newx.
+   Hypothesis: the first stage from_to(newz_hat, z) is not in the sub-threshold nearly-antiparallel zone *)
+Theorem C20_init_to_new_axes : forall thr (newz newx : vec3 R) c2 s2 rho, 0 <= thr -> 0 < v_lsq RNum newz ->
+  let f := v_normalize RNum newz in
+  let xo := v_add RNum newx (v_mul RNum f (- v_dot RNum f newx)) in
+  let x' := fst (to_new_axes_x' RNum isnormR thr newz newx) in
+  (0 <= v_dot RNum f ez \/ thr < v_lsq RNum (v_add RNum f ez)) ->
+  c2 * c2 + s2 * s2 = 1 -> 0 < rho -> (c2 * c2 - s2 * s2) * rho = vx x' -> (2 * s2 * c2) * rho = - vy x' ->
+  let q := to_new_axes RNum isnormR thr c2 s2 newz newx in
+  q_lsq RNum q = 1 /\ rotate RNum f q = ez /\ rotate RNum xo q = mkV rho 0 0 /\ v_dot RNum f xo = 0.
+Proof. exact to_new_axes_spec. Qed.
+Print Assumptions C20_init_to_new_axes.
+
+(* reb_rotation_slerp returns its end points at t = 0 and t = 1 (default branch; sin(acos c) = sqrt(1-c^2)) *)
+Theorem C20_slerp_endpoints : forall eps (q1 q2 : quat R), 0 < eps ->
+  let c := slerp_cos RNum q1 q2 in let s := sqrt (1 - c * c) in
+  Rabs c < 1 -> eps <= Rabs s ->
+  slerp RNum eps s 0 q1 q2 = q1 /\ slerp RNum eps 0 s q1 q2 = q2.
+Proof. exact slerp_endpoints. Qed.
+Print Assumptions C20_slerp_endpoints.
+
 (* ================= frames (one phase-space component; all N) ================= *)
 Theorem C20_move_to_com : forall ms qs, ms <> [] -> List.length ms = List.length qs -> pos_prefix 0 ms ->
   let qs' := move_to_com RNum ms qs in
@@ -198,6 +240,17 @@ Theorem C20_var1_is_com_variation : forall l, let M := Msum (l_m l) in M <> 0 ->
     = eps * eps * (dM * S1 - MQ (l_dm l) (l_dq l)).
 Proof. exact var1_is_com_variation. Qed.
 Print Assumptions C20_var1_is_com_variation.
+
+(* the second-order variational correction of move_to_com IS the eps1*eps2 part of move_to_com run on nested dual numbers
+   (m + e1 ma + e2 mb + e1e2 m2, q + e1 qa + e2 qb + e1e2 q2): the shift, and every shifted second-order particle *)
+Theorem C20_var2_is_mixed_dual_part : forall l : list (e2 (T:=R)), l <> [] -> pos_prefix 0 (map em l) ->
+  let M := Sum em l in
+  var2_shift RNum M l = dd_mix (com_q DDR (map ddm l) (map ddq l)) /\
+  dd_val (com_m DDR (map ddm l) (map ddq l)) = M /\
+  (forall i, (i < List.length l)%nat ->
+     nth i (move_to_com_var2 RNum M l) 0 = dd_mix (nth i (move_to_com DDR (map ddm l) (map ddq l)) (nzero DDR))).
+Proof. exact var2_is_mixed_dual_part. Qed.
+Print Assumptions C20_var2_is_mixed_dual_part.
 
 (* ================= non-vacuity ================= *)
 Example C20_hypotheses_inhabited :
